@@ -335,7 +335,7 @@ pub fn t_scoped_write_panics<C: RawLock + RawLockD + Lockable + Kind<L>, L: Kill
 		post_oneshot(l, &pre, r.is_err(), true, 0);
 	}
 	kani::cover!(w().faults == 0 && user_panics, "user_panic");
-	kani::cover!(class == 1 || (w().faults == 1 && calls.get() == 1), "fault_after_closure");
-	kani::cover!(class == 2 || (w().faults == 1 && calls.get() == 0), "fault_before_closure");
+	kani::cover!(class == 1 || class == 3 || (w().faults == 1 && calls.get() == 1), "fault_after_closure");
+	kani::cover!(class == 2 || class == 3 || (w().faults == 1 && calls.get() == 0), "fault_before_closure");
 	kani::cover!(r == Ok(17), "clean");
 }
